@@ -59,7 +59,8 @@ chk("C05",
     "unsafe_references_in_callbacks; verdicts must match, and error contexts of rejected cases must name the offending "
     "Type / Type::method. Disagreements are re-run in isolation before being reported.",
     "Bounded grammar (no traits-with-methods, no 128-bit, lifetimes limited to one named/elided/'static). Backend profiles are "
-    "probed black-box from the tool binary. Implied-bound restating (last clause) is checked with C04's lifetime model.",
+    "probed black-box from the tool binary. Implied-bound restating (last clause) is checked with C04's lifetime model: C05 itself "
+    "replays the two-parameter signatures that use one bounded struct twice (spec/life/bounds_2p.cfg), C04 the single-use ones.",
     "TLA+ spec (two formulations checked equal by TLC); spec->impl replay of every TLC-generated case through the real lowering",
     "DESIGN.md §5 C05")
 
@@ -85,7 +86,8 @@ chk("C04",
     "MustKeep(r) of parameters a returned value of lifetime r may borrow from, the expected edge list per output lifetime, and "
     "which signatures must be rejected because an implied bound is not spelled out. A GC heap machine (Call with any body Rust's "
     "typing allows, DropRoot, DropRet, GC) is model-checked for NoUseAfterFree with Edges = MustKeep on every accepted "
-    "signature; removing one required edge must be refuted (minimality). Every TLC-enumerated signature (59k for 2 lifetimes / 1 "
+    "signature; removing one required edge must be refuted (minimality); spec/life/LifetimesProof.tla proves NoUseAfterFree with "
+    "TLAPS for any lifetime set, signature and schedule (38 obligations, re-checked on every run). Every TLC-enumerated signature (59k for 2 lifetimes / 1 "
     "parameter; thorough adds 2-parameter and 3-lifetime families) is rendered and run through the real lowering and "
     "Method::borrowing_param_visitor: verdicts and edge lists must match exactly. For a seeded sample the real js, dart, kotlin "
     "and nanobind backends are run and their emitted edge arrays / keep_alive policies must contain MustKeep.",
